@@ -823,6 +823,11 @@ def run_case(ctx, i):
   except Exception as e:  # pylint: disable=broad-except
     if not is_lib_error(e):
       raise
+    if bad and isinstance(e, (ValueError, TypeError)):
+      # A manyof whose number of choices the bound List spec can never hold
+      # may be refused when it is bound: then there is no template to decode.
+      c['bad_size_refused_at_binding'] += 1
+      return
     ctx.violation('build-raised', kind, tb(e), {'template': TT.show(T)})
     return
   c['kind:' + kind] += 1
